@@ -729,12 +729,9 @@ def whits_lambda(rep: Report, repo: Repo, rule: str = "R-FORMULA"):
            f"matched to the pixels by position", lam[0] if lam else "lmda = ...")
 
 
-def r_position_truthy(rep: Report, repo: Repo, fn: ast.FunctionDef, where: str, afile: str = "hdc/algo/accessors.py",
-                      modules: Iterable[str] = ("hdc.algo.accessors", "hdc.algo.utils"), rule: str = "R-TRUTHY") -> int:
-    """An axis position - the result of ``Index.get_indexer``, taken directly or through helpers (nested closures, module-level
-    functions, methods) - has 0 in its domain: the first step of the axis.  ``pos or default`` / ``if not pos`` therefore confuses
-    "the label is the first step" with "no label given".  The only harmless spelling is ``pos or 0`` (None -> 0, 0 -> 0).
-    Returns the number of position-valued expressions examined."""
+def position_helpers(repo: Repo, fn: ast.FunctionDef, modules: Iterable[str] = ("hdc.algo.accessors", "hdc.algo.utils")):
+    """Functions (nested closures of `fn`, module-level functions, methods) that return an axis position obtained from ``Index.get_indexer``,
+    directly or through one another (fixpoint). Returns (names, name -> def, callee_name, is_pos_expr)."""
     funcs: Dict[str, ast.FunctionDef] = {}
     for m in modules:
         try:
@@ -781,6 +778,16 @@ def r_position_truthy(rep: Report, repo: Repo, fn: ast.FunctionDef, where: str, 
             if any(is_pos_expr(r.value) or any(isinstance(n, ast.Name) and n.id in local_pos for n in ast.walk(r.value)) for r in rets):
                 possrc.add(name)
                 changed = True
+    return possrc, funcs, callee_name, is_pos_expr
+
+
+def r_position_truthy(rep: Report, repo: Repo, fn: ast.FunctionDef, where: str, afile: str = "hdc/algo/accessors.py",
+                      modules: Iterable[str] = ("hdc.algo.accessors", "hdc.algo.utils"), rule: str = "R-TRUTHY") -> int:
+    """An axis position - the result of ``Index.get_indexer``, taken directly or through helpers (nested closures, module-level
+    functions, methods) - has 0 in its domain: the first step of the axis.  ``pos or default`` / ``if not pos`` therefore confuses
+    "the label is the first step" with "no label given".  The only harmless spelling is ``pos or 0`` (None -> 0, 0 -> 0).
+    Returns the number of position-valued expressions examined."""
+    possrc, funcs, callee_name, is_pos_expr = position_helpers(repo, fn, modules)
     scopes = [fn] + [n for n in ast.walk(fn) if isinstance(n, ast.FunctionDef) and n is not fn]
     posnames: Set[str] = set()
     for st in ast.walk(fn):
